@@ -2,22 +2,29 @@
 executions of the real frontend/backend recorded by harness/h_sys; scenario family in props/sysfam.py; implementation-shaped
 exploration in spec/Quill.tla. The flush handshake under release/acquire (the backend's store to the caller's flag, the caller's
 load, the sink writes ordered before the return): spec/StopRA.tla with the memory orders extracted from the code, replayed on
-the REAL backend thread / flush_log() on a shim atomic (tools/stopmodel.py, harness/h_stop)."""
+the REAL backend thread / flush_log() on a shim atomic (tools/stopmodel.py, harness/h_stop). The destination: spec/FileSink.tla
+(write / flush / fsync interval / deleted file / restart in "a" or "w"), every behaviour replayed on the real quill::FileSink
+(tools/filesinkmodel.py, harness/h_filesink)."""
 import json, os
-import sysfam, qsys, stopmodel, newctxmodel
+import sysfam, qsys, stopmodel, newctxmodel, filesinkmodel
 
 
 def run(ck):
     stopmodel.run_for(ck)
     # a thread whose context the backend never picks up: its flush_log() never returns (spec/NewCtxRA.tla, runs ending with flush_log)
     newctxmodel.run_for(ck)
+    # "... those sinks have been flushed, so it can be read from the destination": the file sink itself (spec/FileSink.tla, harness/h_filesink)
+    filesinkmodel.run_for(ck)
     if os.environ.get("VERIF_PART") == "model":
         return
     sysfam.run_family(ck, "C06", 250 if ck.tier == "quick" else 3000)
 
 
 def replay(ck, path):
-    if json.loads(open(path).read())["replay"].get("harness") == "h_stop":
+    hn = json.loads(open(path).read())["replay"].get("harness")
+    if hn == "h_stop":
         stopmodel.replay(path)
+    elif hn == "h_filesink":
+        filesinkmodel.replay(path)
     else:
         qsys.replay(path)
